@@ -22,6 +22,11 @@ func C16_writer_sticky() {
 		w.noFlush = vBool("noflush")
 		w.err = vErrDst
 		var err error
+		if vChoose("resetop", 2) == 1 {
+			// starting the next message with the quick opcode reset does not re-arm a writer whose
+			// destination has failed (only Reset with a new destination does)
+			w.ResetOp(ws.OpBinary)
+		}
 		kind := vChoose("kind", 5)
 		switch kind {
 		case 4: // ReadFrom: whatever it returns, nothing may reach the destination
@@ -49,7 +54,10 @@ func C16_writer_sticky() {
 	callsAtFail := 0
 	for s := 0; s < 4; s++ {
 		var err error
-		switch vChoose("kind", 3) {
+		switch vChoose("kind", 4) {
+		case 3: // next message started with the quick opcode reset, then a write
+			w.ResetOp(ws.OpBinary)
+			_, err = w.Write(vBytes("p", 3))
 		case 0:
 			_, err = w.Write(vBytes("p", []int{1, 3, 5}[vChoose("plen", 3)]))
 		case 1:
